@@ -56,7 +56,7 @@ def replay(ctx, path):
 def c12(ctx):
     q = ctx.quick()
     ctx.rule = ("MC: Align machine for all text pairs up to length 3 over {ws,x,y} x flags; "
-                "A: all pairs up to length %d over 3 slots x flags, 5 concretisations each (ASCII, multi-byte, clusters in both modes, characters sharing their first code point); "
+                "A: all pairs up to length %d over 3 slots x flags, 6 concretisations each (ASCII, multi-byte, clusters in both modes, characters sharing their first code point, two different whitespace characters); "
                 "B: random pairs up to 14 characters. non-trivial = both texts non-empty and different"
                 % (3 if q else 4))
     ctx.assumptions = ["unicode-segmentation / char::is_whitespace define the view (trusted)",
